@@ -291,26 +291,28 @@ class ExecNode:
 class ReturnExecNode(ExecNode):
     """ExecNode corresponding to a constant Return value of a DAG."""
 
-    def __init__(self, func: Callable[..., Any], name_or_order: Union[str, int]):
-        """Constructor of ArgExecNode.
+    def __init__(self, id_: Identifier, **_kwargs: Any) -> None:
+        """Constructor of ReturnExecNode.
 
         Args:
-            func (Callable[..., Any]): The function (DAG describer) that this return is reattached to
-            name_or_order (Union[str, int]): key of the dict or order in the return.
-                For example Python's builtin sorted function takes 3 arguments (iterable, key, reverse).
-                    1. If called like this: sorted([1,2,3]) then [1,2,3] will be of type ArgExecNode with an order=0
-                    2. If called like this: sorted(iterable=[4,5,6]) then [4,5,6]
-                       will be an ArgExecNode with a name="iterable"
-
-        Raises:
-            TypeError: if type parameter is passed (Internal)
+            id_ (Identifier): Identifier of the ReturnExecNode.
+            **_kwargs (Any): Additional arguments that are not used but necessary for configuring the DAG.
         """
-        suffix = make_suffix(name_or_order)
-        super().__init__(
-            id_=f"{func.__qualname__}{RETURN_NAME_SEP}{suffix}",
-            is_sequential=False,
-            resource=Resource.main_thread,
-        )
+        super().__init__(id_=id_, is_sequential=False, resource=Resource.main_thread)
+
+
+def make_rxn_id(func: Callable[..., Any], name_or_order: Union[str, int]) -> Identifier:
+    """Makes ReturnExecNode id.
+
+    Args:
+        func (Callable[..., Any]): The function (DAG describer) that this return is reattached to
+        name_or_order (Union[str, int]): key of the dict or order in the return.
+
+    Returns:
+        Identifier: Id of the ReturnExecNode
+    """
+    suffix = make_suffix(name_or_order)
+    return f"{func.__qualname__}{RETURN_NAME_SEP}{suffix}"
 
 
 class ArgExecNode(ExecNode):
